@@ -41,6 +41,13 @@ def gen_cases(rng, n, max_depth):
                     nd["input_params"] = ["N"]
                 a, b = E.sym(rng.choice(sc)), (E.sym(rng.choice(sc)) if rng.random() < 0.5 else E.num(rng.randint(2, 5)))
                 nd["resources"].append({"name": "za", "type": "other", "value": E.fun("atan2", E.op("add", a, E.num(1)), b)})
+            if rng.random() < 0.2:
+                # a repetition whose count is a number that is NOT whole (5/2: the expected rounds of a repeat-until-success
+                # loop): it is exported as it is, not as an integer
+                reps = [n for n, _ in H._nodes(r) if n.get("repetition") and n["repetition"]["sequence"]["kind"] in ("constant", "arithmetic", "geometric", "closed_form")]
+                if reps:
+                    from fractions import Fraction
+                    rng.choice(reps)["repetition"]["count"] = E.num(rng.choice([Fraction(5, 2), Fraction(7, 2), Fraction(1, 2)]))
             out.append({"routine": r})
     return out
 
